@@ -26,7 +26,7 @@ SeenCount == LET S == {<<i, t>> : i \in {1, 2}, t \in {0, 1}}
              IN  FoldSet(LAMBDA p, acc : acc + Cardinality(Get(seen[p[1]], p[2], {})), 0, S)
 
 MCInit ==
-  /\ now = 0 /\ up = TRUE
+  /\ now = 0 /\ up = "up"
   /\ gca = [avail |-> TRUE, key |-> "gca"]
   /\ equip = Dev
   /\ pkidx = [k \in {"d1", "d2"} |-> IF k = "d1" THEN 1 ELSE 2]
